@@ -183,9 +183,17 @@ def run(ctx):
     d = core.case_dir('C20')
     cases = gen_cases(ctx)
     path = os.path.join(d, 'cases.txt')
+    # intervals far beyond 16 bits of seconds as well (a paused clock makes the waits free): the interval given to Timer::new is
+    # the interval that counts
+    long_cases = []
+    for secs in (65535, 65536 + 1, 65536 + 10, 70000, 2 * 65536 + 1, 4294967):
+        long_cases.append((secs, ['s', 'w5200', 'a1003', 'r', 'w5200', 'x', 's', 'w2600']))
+        long_cases.append((secs, ['s', 'a2600', 'w2600', 'r', 'a97', 'w2600', 'w13000']))
+        long_cases.append((secs, ['s', 'w%d' % (secs * 1000 + 2600), 'w2600', 'r', 'w%d' % (secs * 1000 - 1), 'w2600']))
+    all_cases = [(10, ops) for ops in cases] + long_cases
     with open(path, 'w') as f:
-        for ops in cases:
-            f.write('TMR 10 %s\n' % ','.join(ops))
+        for secs, ops in all_cases:
+            f.write('TMR %d %s\n' % (secs, ','.join(ops)))
     impl, _ = core.run_tool(ctx.harness, ['c20', 'obs', path], timeout=3000)
     impl = [l for l in impl if l]
     model = None
@@ -212,7 +220,7 @@ def run(ctx):
                 ctx.violation('model and implementation disagree on a timer history', case=head, model=ml, impl=l)
             if cut < len(mt):
                 n_over += 1
-        oracle(ctx, ops, mt if mt is not None else toks, l, 10000)
+        oracle(ctx, ops, mt if mt is not None else toks, l, 1000 * int(head.split()[1]))
         nt = sum(1 for t in toks if t.startswith('T@'))
         n_tick += nt
         shapes.add(' '.join(t.split('@')[0] for t in toks))
